@@ -17,7 +17,7 @@ INFO = {
     "outside": ["policy `interactive` (excluded by the property)", "tree pairs outside the mutation list", "edit sequences longer than one operation after loading"],
     "stubs": ["memfs", "report recorder on the loading instance"],
 }
-BUDGET = {"quick": 360, "thorough": 800}
+BUDGET = {"quick": 420, "thorough": 800}
 
 CONF = "/m/sdkconfig"
 
@@ -254,5 +254,5 @@ def jobs(tier, seed, excluded=()):
             fixed = {x.name: None for x in slots if x.name != sl.name}
             sp, spre = ST.params_for(slots, dom, fixed=fixed)
             ctx = {"tree": base, "dom": dom.to_json(), "nstate": len(sp), "fixed": fixed, "new": new, "policy": "sdkconfig", "target": t, "odom": odom.to_json()}
-            out.append(Job("C08", "C08-%s-c2-%s-alldef-op-%s" % (base, new.split(":")[-1], sl.name), "vk.props.c08", "clause2", ctx, sp + [("ok", "int"), ("ov", "int")], spre + " and 0 <= ok <= 3 and " + op_value_bounds(sl, odom), timeout=tmo, samples=[[0] * len(sp) + [1, 0]], tree=base))
+            out.append(Job("C08", "C08-%s-c2-%s-alldef-op-%s" % (base, new.split(":")[-1], sl.name), "vk.props.c08", "clause2", ctx, sp + [("ok", "int"), ("ov", "int")], spre + " and 0 <= ok <= 3 and " + op_value_bounds(sl, odom), timeout=tmo * 2, samples=[[0] * len(sp) + [1, 0]], tree=base))
     return out
